@@ -484,6 +484,7 @@ def rule_dispatch(r):
             pd.lineno)
 
 
+from . import extra3 as _x3
 RULES = [
     ("R-C15-float-lang", 9, "exact language and context of the literal regex", rule_float_lang),
     ("R-C15-keyword", 7, "structure of the double keyword regex", rule_keyword),
@@ -491,6 +492,7 @@ RULES = [
     ("R-C15-tgmath", 6, "integer promotion list and grammar", rule_tgmath),
     ("R-C15-raw-text", 1, "substitution context", rule_raw_text),
     ("R-C15-dispatch", 25, "dtype dispatch tables agree", rule_dispatch),
+    ("R-C15-plumb", 10, "requested precision reaches conversion, library name and ctypes signature unchanged", _x3.rule_c15_plumb),
 ]
 
 
